@@ -21,8 +21,8 @@ TLA_JAR = "/opt/veriftools/tla/tla2tools.jar"
 CM_JAR = "/opt/veriftools/tla/CommunityModules-deps.jar"
 CLASSES = os.path.join(VERIF, "build", "classes")
 SPEC = os.path.join(VERIF, "spec")
-LIBS_JDK = [os.path.join(SPEC, d) for d in ("prim/jdk", "lib", "algo", "pq", "sys", "trace", "mc", "plan")]
-LIBS_TOY = [os.path.join(SPEC, d) for d in ("prim/toy", "lib", "algo", "pq", "sys", "trace", "mc", "plan")]
+LIBS_JDK = [os.path.join(SPEC, d) for d in ("prim/jdk", "lib", "algo", "pq", "sys", "trace", "mc", "plan", "proofs")] + ["/opt/veriftools/tlapm/lib/tlapm/stdlib"]
+LIBS_TOY = [os.path.join(SPEC, d) for d in ("prim/toy", "lib", "algo", "pq", "sys", "trace", "mc", "plan", "proofs")] + ["/opt/veriftools/tlapm/lib/tlapm/stdlib"]
 
 
 SLOTS = int(os.environ.get("VERIF_SLOTS", "20"))   # machine-wide cap on concurrently busy TLC worker threads
